@@ -642,6 +642,7 @@ impl Shared {
                     Garbage(u8),
                     EmitAndAdvance(Emit, u64),
                     WrongAck(u8),
+                    DupPubrecFail(u8),
                 }
                 let mut opts: Vec<(E, bool)> = Vec::new();
                 let enabled = if self.manual { Vec::new() } else { self.broker.enabled() };
@@ -702,6 +703,14 @@ impl Shared {
                     if self.cfg.broker.garbage && self.broker.connected {
                         for k in 0..GARBAGE.len() as u8 {
                             opts.push((E::Garbage(k), true));
+                        }
+                    }
+                    if self.cfg.broker.dup_pubrec_fail && self.broker.connected {
+                        let epoch = self.oracle.epoch;
+                        for r in self.oracle.reqs.iter() {
+                            if r.kind == ReqKind::Pub2 && r.live(epoch) && r.pid.is_some() && r.pubrec_ok.is_some() && r.rel.contains_key(&c) {
+                                opts.push((E::DupPubrecFail(r.seq), true));
+                            }
                         }
                     }
                     if self.cfg.broker.wrong_kind_acks && self.broker.connected {
@@ -787,6 +796,12 @@ impl Shared {
                         self.push_raw(c, raw);
                         self.conns[c].eof_pending = true;
                         self.broker.conn_close();
+                        true
+                    }
+                    E::DupPubrecFail(seq) => {
+                        let pid = self.oracle.reqs[seq as usize].pid.unwrap();
+                        self.log(|| format!("  fault: broker repeats PUBREC for identifier {} with a failure code although it already received the PUBREL", pid));
+                        self.push_inbound(c, SPacket::Ack { kind: mr::AckKind::PubRec, pid, reason: 0x80, props: vec![], form: 1 });
                         true
                     }
                     E::WrongAck(seq) => {
@@ -951,6 +966,8 @@ pub struct World<'v> {
     pub need_reconnect_drain: bool,
     /// chosen opening and position in it
     pub prelude: Option<(usize, usize)>,
+    /// twin runs: the scripted program did not fit this run (connect() results differ)
+    pub twin_out_of_step: Option<String>,
 }
 
 #[derive(Copy, Clone, PartialEq, Eq, Debug)]
@@ -981,6 +998,7 @@ pub struct RunResult {
     pub cancelled_without_trace: Vec<bool>,
     pub final_state: Option<(bool, usize, usize, usize, usize, u16)>,
     pub cover: u64,
+    pub twin_out_of_step: Option<String>,
 }
 
 struct ConnCtx {
@@ -1020,7 +1038,20 @@ impl<'v> World<'v> {
             match sc.pop_front() {
                 Some(PStep::Connect) => true,
                 Some(PStep::EndSession) | None => false,
-                other => panic!("machinery: twin script out of step at session level: {:?}", other),
+                Some(other) => {
+                    // the recorded run made calls on a connection this run never got (its connect() failed):
+                    // the two runs differ in the result of connect(); skip that connection's part
+                    self.twin_out_of_step = Some(format!("this run's connect() failed where the other run went on with {:?}", other));
+                    while let Some(step) = sc.pop_front() {
+                        if matches!(step, PStep::EndConn) {
+                            break;
+                        }
+                    }
+                    match sc.pop_front() {
+                        Some(PStep::Connect) => true,
+                        _ => false,
+                    }
+                }
             }
         } else if can_connect {
             self.choose(K_PROG, 2) == 1
@@ -1040,7 +1071,12 @@ impl<'v> World<'v> {
                     Some((op, skip))
                 }
                 Some(PStep::EndConn) | None => None,
-                other => panic!("machinery: twin script out of step at connection level: {:?}", other),
+                Some(other) => {
+                    // the recorded run never got this connection (its connect() failed): nothing to do on it
+                    self.twin_out_of_step = Some(format!("this run's connect() succeeded where the other run's failed (next recorded step {:?})", other));
+                    sc.push_front(other);
+                    None
+                }
             }
         } else if let Some(op) = self.next_prelude_op() {
             Some((op, false))
@@ -2222,6 +2258,14 @@ fn compare_with_twin(cfg: &Rc<Cfg>, r: &mut RunResult, record: bool) {
         }
     };
     let hexes = |v: &Vec<Vec<u8>>| v.iter().map(|b| mr::hex_short(b)).collect::<Vec<_>>().join(" ");
+    if let Some(why) = &t.twin_out_of_step {
+        let (prop, what) = match mode {
+            Twin::Cancel => ("C13", "the uncancelled run"),
+            Twin::Fragment => ("C15", "the unfragmented run"),
+        };
+        flag(prop, "results-differ", "connect", format!("connect() does not give the same result in {}: {}", what, why));
+        return;
+    }
     match mode {
         Twin::Cancel => {
             let ops: Vec<String> = r
@@ -2327,6 +2371,7 @@ pub fn run_inner(
         last_connect_failed: false,
         need_reconnect_drain: false,
         prelude: None,
+        twin_out_of_step: None,
     };
     let result = std::panic::catch_unwind(std::panic::AssertUnwindSafe(|| {
         let mut rx = vec![0u8; cfg.rx];
@@ -2397,6 +2442,7 @@ pub fn run_inner(
                     cancelled_without_trace: Vec::new(),
                     final_state: None,
                     cover: 0,
+                    twin_out_of_step: None,
                 };
             }
         };
@@ -2458,6 +2504,7 @@ pub fn run_inner(
         cancelled_without_trace,
         final_state: world.final_state,
         cover: shb.oracle.cover,
+        twin_out_of_step: world.twin_out_of_step.clone(),
         points: std::mem::take(&mut shb.ch.points),
         violations: std::mem::take(&mut shb.oracle.viol),
         trace: shb.trace.take(),
